@@ -49,11 +49,13 @@ def build(verbose=False):
         if os.path.exists(os.path.join(out, '.done')):
             os.utime(os.path.join(out, '.done'))
             return out
-        # drop older builds (keep the 3 most recent) to bound disk use
+        # drop older builds to bound disk use: beyond the 8 most recent, and only when untouched for an hour (another check may still be running on it)
         olds = sorted((d for d in glob.glob(os.path.join(BUILDROOT, '*')) if os.path.isdir(d)),
                       key=lambda d: os.path.getmtime(os.path.join(d, '.done')) if os.path.exists(os.path.join(d, '.done')) else 0)
-        for d in olds[:-3]:
-            shutil.rmtree(d, ignore_errors=True)
+        for d in olds[:-8]:
+            done = os.path.join(d, '.done')
+            if not os.path.exists(done) or time.time() - os.path.getmtime(done) > 3600:
+                shutil.rmtree(d, ignore_errors=True)
         shutil.rmtree(out, ignore_errors=True)
         for sub in ('obj', 'inc', 'mods-wrapped', 'mods-plain', 'stubs'):
             os.makedirs(os.path.join(out, sub))
